@@ -6,6 +6,9 @@ CLAIMED = {
  "C01": ("generated-input search (proptest): corpus mutations, token soup, built-in calls, raw bytes, depth ladder; oracle = returns Ok/Err, no panic/abort/parser hang, in a watchdog-supervised worker",
          "Sampling of the input space with shrinking; a green run means no crash, abort or parser hang among the generated inputs (counts in evidence). Coverage-guided libFuzzer campaign in the thorough tier.",
          "2/C01"),
+ "C02": ("metamorphic relation over histories (proptest vec of prior compilations incl. identifier-permuting sheets), fresh-process repeats and concurrent thread storms; oracle = byte equality with the fresh-thread run; unique-id() distinctness",
+         "Sampling of histories, process repeats and real thread interleavings; a green run means no dependence on earlier compilations, hash seeds or concurrent threads was observed among the generated cases beyond the listed known findings.",
+         "2/C02"),
 }
 
 NOT_YET = {}
